@@ -85,6 +85,24 @@ def strategy(tier):
             p["value"] = ["num", draw(st.sampled_from(EXTREME))]
         need = [X.deriv_name(s["name"]) for s in model["states"]]
         pts = G.draw_points(draw, model, 2, need)
+        if draw(st.integers(0, 3)) == 0 and "zq_over" not in X.model_names(model):
+            # a monitor-only product of literals whose double-precision evaluation over- or underflows part-way
+            # although the exact product is an ordinary number: the saved text must keep the factors and their
+            # nesting (float semantics: inf / 0.0 before and after; never compared with the exact reference)
+            lits = draw(st.sampled_from([["1e200", "1e200", "1e-300"], ["1e-160", "1e-170", "1e165", "1e165"], ["1e-200", "1e-200", "1e300", "1e100"], ["2e300", "3e10", "1e-305"]]))
+            e = ["num", lits[0]]
+            for l in lits[1:]:
+                e = ["bin", "*", e, ["num", l]]
+            v = ["var", draw(st.sampled_from(X.state_names(model)))]
+            e = ["bin", "*", e, v] if draw(st.booleans()) else ["bin", "*", v, e]
+            model["assigns"].append({"name": "zq_over", "expr": e, "comps": list(model["assigns"][0]["comps"])})
+        if model["params"] and draw(st.integers(0, 7)) == 0:
+            # the same for a default value (the points carry their own parameter values)
+            q = draw(st.sampled_from(model["params"]))
+            e = ["num", "1e-200"]
+            for l in ("1e-200", "1e300", "1e100"):
+                e = ["bin", "*", e, ["num", l]]
+            q["value"] = e
         return {"model": model, "points": pts, "dt": 0.01}
 
     return _s()
@@ -170,7 +188,21 @@ def check_case(case):
         raise Violation(f"C11:reloaded-codegen:{type(ex).__name__}", dict(ctx, error=str(ex)[:500]))
     counters = {}
     n_ok = 0
+    # initial values as the generated code computes them (a default given as a product of literals is evaluated
+    # in double precision, factor by factor)
+    for kind in ("state", "parameter"):
+        v1, v2, i1, i2 = m1.init(kind), m2.init(kind), m1.index(kind), m2.index(kind)
+        for name in i1:
+            a, b = float(v1[i1[name]]), float(v2[i2[name]])
+            if not (a == b or (a != a and b != b) or abs(a - b) <= 1e-15 * max(abs(a), abs(b))):
+                raise Violation(f"C11:init-{kind}-differs-after-reload", dict(ctx, name=name, original=a, reloaded=b))
     for pt in case["points"]:
+        if "zq_over" in m1.index("monitor"):
+            with np.errstate(all="ignore"):
+                a = float(m1.call("monitor_values", pt)[m1.index("monitor")["zq_over"]])
+                b = float(m2.call("monitor_values", pt)[m2.index("monitor")["zq_over"]])
+            if not (a == b or (a != a and b != b)):
+                raise Violation("C11:literal-product-differs-after-reload", dict(ctx, name="zq_over", point=pt, original=a, reloaded=b))
         ev = refsem.Evaluator(model, pt)
         for fname, kind, exp, dt in (
             ("rhs", "state", fullcheck.expected_rhs(model, ev), None),
@@ -183,6 +215,8 @@ def check_case(case):
                 raise Violation(f"C11:reloaded:{fname}:call-{type(ex).__name__}", dict(ctx, error=str(ex)[:500], point=pt))
             i1, i2 = m1.index(kind), m2.index(kind)
             for name, ref in exp.items():
+                if name == "zq_over":
+                    continue
                 a, b = g1[i1[name]], g2[i2[name]]
                 n_ok += 1
                 t = float(oracle.tol(ref, 64)) + 1e-13 * abs(float(ref.val))
